@@ -418,7 +418,7 @@ impl Prop for C18 {
         let out_dir = ctx.out.parent().map(|p| p.to_path_buf()).unwrap_or_default();
         let confined = ensure_confined(&[out_dir.as_path()]);
         ctx.stats.count(if confined { "confined_by_landlock" } else { "landlock_unavailable_risky_paths_not_generated" }, 1);
-        let total = if ctx.quick { 160_000 } else { 3_000_000 };
+        let total = if ctx.quick { 160_000 } else { 2_000_000 };
         let n = ctx.share(total);
         let gen = move |c: &mut Choices| gen_case_with(c, confined);
         ctx.drive(1, n, 400, &gen, &check, &reduce);
